@@ -65,7 +65,7 @@ def shape_error(nd: tg.Node, x: t.Any, path: str = '$', depth: int = 0) -> t.Opt
         return None
     if isinstance(nd, tg.Tup):
         if type(x) is not tuple or len(x) != len(nd.elems):
-            return f"{path}: {type(x).__name__} of length {len(x) if hasattr(x, '__len__') else '?'} where a tuple of {len(nd.elems)} is expected"
+            return f"{path}: {type(x).__name__} where a tuple of {len(nd.elems)} is expected"
         for (i, (e, y)) in enumerate(zip(nd.elems, x)):
             d = shape_error(e, y, f"{path}[{i}]", depth + 1)
             if d:
